@@ -3,11 +3,12 @@ import EqsigVerif.Handlers.Peaks
 import EqsigVerif.Handlers.Switched
 import EqsigVerif.Handlers.PowerLaw
 import EqsigVerif.Handlers.Im
+import EqsigVerif.Handlers.Sdof
 /-! table of all driver handlers -/
 namespace EqsigVerif.Handlers
 open EqsigVerif.Wire
 
 def table : List (String × Handler) :=
-  Displacements.handlers ++ Peaks.handlers ++ Switched.handlers ++ PowerLaw.handlers ++ Im.handlers.map (fun (p : String × Handler) => (if p.1 = "peaks" then "pgx" else p.1, p.2))
+  Displacements.handlers ++ Sdof.handlers ++ Peaks.handlers ++ Switched.handlers ++ PowerLaw.handlers ++ Im.handlers.map (fun (p : String × Handler) => (if p.1 = "peaks" then "pgx" else p.1, p.2))
 
 end EqsigVerif.Handlers
